@@ -78,7 +78,7 @@ def py_behaviour(kind, weighted, n, length, rng, xs=None):
 
     def w():
         if not weighted:
-            return rng.choice([0, 0, 1, 1, 2]) if rng.random() < 0.15 else rng.choice([0, 1])
+            return rng.choice([0, 1, 2, 2]) if rng.random() < 0.2 else rng.choice([0, 1])
         return rng.choice([0, 1, 2, 3])
 
     def mdarg():
@@ -90,6 +90,15 @@ def py_behaviour(kind, weighted, n, length, rng, xs=None):
         r = rng.random()
         if r < 0.30:
             o = {"op": "add_edge", "k": key(), "w": w(), "bad": ""}
+            if not weighted and o["w"] == 2 and rng.random() < 0.7:
+                # a call that must be rejected carries fresh entities (an unused layer / time, any node set):
+                # whatever it leaks into the object becomes visible
+                fresh = dict(b.random_key(u, xs))
+                if kind == "mux":
+                    fresh["x"] = "L9"
+                elif kind == "temp":
+                    fresh["x"] = 7
+                o["k"] = fresh
             if weighted and rng.random() < 0.08:
                 o.update({"w": 0, "zero": True})      # weight 0 given explicitly
             o.update(mdarg())
@@ -306,12 +315,17 @@ class Replayer:
         self.extras(0)
         can_copy = self.copies and "copy" not in UNSUPPORTED[self.kind]
         copy_at = self.rng.randrange(1, max(2, len(ops))) if can_copy else None
+        # a second copy of the SAME source later on (a copy must reflect the source as it is then)
+        copy2_at = (self.rng.randrange(copy_at + 1, len(ops) + 1) if can_copy and copy_at is not None
+                    and copy_at + 1 <= len(ops) and self.rng.random() < 0.5 else None)
         for i, op in enumerate(ops):
             if copy_at is not None and i == copy_at:
                 self.copy(0, 1)
+            if copy2_at is not None and i == copy2_at:
+                self.copy(0, 2)
             oid = 0
             if 1 in self.objs and self.rng.random() < 0.5:
-                oid = 1
+                oid = self.rng.choice([k for k in self.objs if k != 0])
             self._final = (i == len(ops) - 1)
             if self.call(oid, op) is not None:
                 self.extras(oid)
